@@ -1,6 +1,8 @@
 package syntax
 
 import (
+	"sort"
+
 	zerr "github.com/DemoHn/Zn/pkg/error"
 )
 
@@ -123,14 +125,15 @@ func (l *Lexer) SetCursor(cursor int) {
 
 // find which line the given `cursor` is located
 func (l *Lexer) FindLineIdx(cursor int, startLoopIdx int) int {
-	i := startLoopIdx
-	for i+1 < len(l.Lines) {
-		if cursor < l.Lines[i+1].StartIdx {
-			return i
-		}
-		i += 1
+	// lines are recorded in source order: search for the first line (from
+	// startLoopIdx on) whose successor begins behind the cursor
+	n := len(l.Lines) - 1 - startLoopIdx
+	if n <= 0 {
+		return startLoopIdx
 	}
-	return i
+	return startLoopIdx + sort.Search(n, func(j int) bool {
+		return cursor < l.Lines[startLoopIdx+j+1].StartIdx
+	})
 }
 
 func (l *Lexer) GetLineInfo(idx int) *LineInfo {
